@@ -13,7 +13,10 @@ import (
 	"encoding/pem"
 	"errors"
 	"fmt"
+	"github.com/google/go-tdx-guest/verify/trust"
+	"io"
 	"math/big"
+	"net/http"
 	"net/url"
 	"regexp"
 	"sort"
@@ -391,6 +394,88 @@ func TestC10(t *testing.T) {
 	table := readRepoFile(t, "testing/testdata/ccel/ccel_table.dat")
 
 	// (1) every single structural mutation of a valid message, at every message entry point.
+	// the library's own getter (trust.SimpleHTTPSGetter over net/http's default transport, replaced in process) against
+	// whatever a server may answer: any status, any Retry-After / Date / Content-Length header, bodies that end early.
+	// Every request returns (a response or an error) - well inside a minute
+	gen.Direct(t, "library-getter-against-any-http-answer", func(t *testing.T) {
+		if sh, _ := gen.Shard(); sh != 0 {
+			return // replaces a process-wide transport: one shard is enough
+		}
+		saved := http.DefaultTransport
+		defer func() { http.DefaultTransport = saved }()
+		far := time.Now().AddDate(3, 0, 0).UTC().Format(http.TimeFormat)
+		retryAfter := []string{"", far, "0", "1", "120", "86400", "-5", "99999999999999999999", time.Now().Add(-time.Hour).UTC().Format(http.TimeFormat), "Wed, 21 Oct 2099 07:28:00 GMT", "soon", " 3", "1.5"}
+		i := 0
+		for _, status := range []int{200, 201, 204, 206, 301, 304, 400, 401, 403, 404, 408, 429, 500, 502, 503, 504, 599} {
+			for _, ra := range retryAfter {
+				for _, body := range []string{"", "x", "{\"tcbInfo\":{}}"} {
+					i++
+					if status != 429 && status != 503 && status != 200 && i%3 != 0 {
+						continue
+					}
+					h := http.Header{}
+					if ra != "" {
+						h.Set("Retry-After", ra)
+					}
+					if i%5 == 0 {
+						h.Set("Date", far)
+					}
+					http.DefaultTransport = roundTripFunc(func(req *http.Request) (*http.Response, error) {
+						return &http.Response{StatusCode: status, Status: fmt.Sprintf("%d status", status), Header: h, Body: io.NopCloser(strings.NewReader(body)), Request: req, ContentLength: -1}, nil
+					})
+					g := &trust.SimpleHTTPSGetter{}
+					gen.Eval()
+					v, hung := gen.CallWatch(45*time.Second, func() error {
+						_, _, err := g.Get("https://api.trustedservices.intel.com/tdx/certification/v4/qe/identity")
+						return err
+					})
+					if hung || v.Panicked() {
+						gen.Fail(t, gen.Violation{Key: fmt.Sprintf("getter-no-answer:status-%d", status), Oracle: "every entry point returns a result or an error; none panics or hangs", Detail: fmt.Sprintf("trust.SimpleHTTPSGetter.Get against a server answering %d with Retry-After %q and a body of %d bytes: no answer within 45 s %s", status, ra, len(body), v.Panic), Replay: map[string]any{"kind": "c10-http-answer", "status": status, "retry_after": ra}})
+						return
+					}
+					gen.NonTrivial("c10http", status, ra, len(body))
+				}
+			}
+		}
+		gen.Class("library-getter-against-any-http-answer")
+	})
+	// a genuinely issued PCK leaf whose SGX extension lacks one of its members (the TCB member, the PPID, ...) while two
+	// optional members keep it above the minimum count - verified WITH collateral, then asked for the level report
+	gen.Direct(t, "leaf-lacking-an-sgx-member-with-collateral", func(t *testing.T) {
+		i := 0
+		for drop := 0; drop < 5; drop++ {
+			for _, seed := range gen.PKISeeds {
+				i++
+				if !gen.ShardOwns(i) {
+					continue
+				}
+				w := gen.NewWorld(gen.NewPKI(gen.PKISpec{Seed: seed}), gen.NewStream(gen.Seed()+uint64(i), "c10lack"))
+				w.HonestCollateral()
+				v := w.Sgx
+				top := gen.SgxTree(&v)
+				names := []string{"ppid", "tcb", "pceid", "fmspc", "type"}
+				top.Kids = append(top.Kids[:drop], top.Kids[drop+1:]...)
+				top.Kids = append(top.Kids, gen.Seq(gen.OID(1, 2, 840, 113741, 1, 13, 1, 6), gen.Octet(make([]byte, 16))), gen.Seq(gen.OID(1, 2, 840, 113741, 1, 13, 1, 7), gen.Seq(gen.Seq(gen.OID(1, 2, 840, 113741, 1, 13, 1, 7, 1), &gen.Node{Tag: 0x01, Content: []byte{0xff}}))))
+				w.SgxDER = top.Encode()
+				w.Build()
+				msg := w.Q.ToProto()
+				for _, l := range []gen.Level{gen.LvlColl, gen.LvlCRL} {
+					o := w.Options(l, w.NewGetter(), nil)
+					gen.Eval()
+					vv, hung := gen.CallWatch(40*time.Second, func() error { return verify.RawTdxQuote(w.Raw, o) })
+					v2 := gen.Call(func() error { _, _, err := verify.SupportedTcbLevelsFromCollateral(msg, o); return err })
+					for _, x := range []gen.Verdict{vv, v2} {
+						if hung || x.Panicked() {
+							gen.Fail(t, gen.Violation{Key: "panic@" + gen.PanicSite(x.Stack), Oracle: "every entry point returns a result or an error; none panics or hangs", Detail: fmt.Sprintf("PCK leaf whose SGX extension lacks its %s member (two optional members present), level %s: %s", names[drop], l, x.Panic), Replay: withFields(w.CaseFile(l, nil, nil, nil, "nopanic"), map[string]any{"then_supported": true})})
+							return
+						}
+					}
+					gen.NonTrivial("c10lack", names[drop], seed, int(l))
+				}
+			}
+		}
+		gen.Class("leaf-lacking-an-sgx-member")
+	})
 	gen.Direct(t, "message-structure", func(t *testing.T) {
 		// the valid message as the parser produces it for a quote without trailing bytes, with three trailing bytes, and
 		// with an empty-but-present trailing-bytes field (which only a hand-built or wire-decoded message has)
@@ -1082,3 +1167,7 @@ func (f failRecorder) Fatalf(format string, args ...any) {
 		*f.msg = fmt.Sprintf(format, args...)
 	}
 }
+
+type roundTripFunc func(req *http.Request) (*http.Response, error)
+
+func (f roundTripFunc) RoundTrip(req *http.Request) (*http.Response, error) { return f(req) }
